@@ -516,7 +516,9 @@ func nestWorkerMain() {
 	syscall.Setrlimit(syscall.RLIMIT_AS, &lim)
 	in := json.NewDecoder(bufio.NewReader(os.Stdin))
 	out := bufio.NewWriter(os.Stdout)
-	w := srvframe.NewWorker(120 * time.Second)
+	// the deep inputs legitimately take long on a loaded machine (1 GB of stack is copied several
+	// times before the runtime gives up): the watchdog here only guards the engine
+	w := srvframe.NewWorker(20 * time.Minute)
 	for {
 		var j nestJob
 		if err := in.Decode(&j); err != nil {
@@ -577,6 +579,9 @@ func runNesting(jobs []nestJob) {
 		if err := cmd.Start(); err != nil {
 			run.EngineError("cannot start nesting worker: %v", err)
 		}
+		nestMu.Lock()
+		nestProcs = append(nestProcs, cmd)
+		nestMu.Unlock()
 		go func(from int) {
 			enc := json.NewEncoder(stdin)
 			for _, j := range jobs[from:] {
@@ -638,6 +643,7 @@ func runNesting(jobs []nestJob) {
 
 var nestOutcome = map[string]string{}
 var nestMu sync.Mutex
+var nestProcs []*exec.Cmd
 
 func judgeNest(j nestJob, r nestResult) {
 	k := &kase{Family: "nesting", Raw: &srvframe.RawCase{Caps: srvframe.CapsRev2, Setup: setupFor(srvframe.StSelected), Name: fmt.Sprintf("%s n=%d", j.Family, j.N), Segs: []string{fmt.Sprintf("<%s with n=%d, %d bytes>", j.Family, j.N, r.InputBytes)}, Fault: "eof", FailWriteAt: -1}, Note: fmt.Sprintf("%s:%d", j.Family, j.N), Bytes: r.InputBytes}
@@ -652,8 +658,7 @@ func judgeNest(j nestJob, r nestResult) {
 		record("server-panic:"+srvframe.PanicKey(p), p, k, int64(j.N), t)
 	}
 	if r.Hang != "" {
-		record("server-goroutine-does-not-finish", r.Hang+" ("+j.Family+")", k, int64(j.N), t)
-		return
+		run.EngineError("nesting worker: %s (%s n=%d)", r.Hang, j.Family, j.N)
 	}
 	if r.CloseCount != 1 {
 		record(fmt.Sprintf("session-closed-%d-times", r.CloseCount), "after "+j.Family, k, int64(j.N), t)
@@ -682,6 +687,17 @@ func judgeNest(j nestJob, r nestResult) {
 // ---------------------------------------------------------------------------------------------
 
 func finish(exhaustive bool, note string) {
+	if !exhaustive {
+		// early end: no worker subprocess may outlive the check
+		nestMu.Lock()
+		for _, c := range nestProcs {
+			if c.Process != nil {
+				c.Process.Kill()
+			}
+		}
+		nestMu.Unlock()
+		run.NontrivialN(run.Evals)
+	}
 	var keys []string
 	for k := range best {
 		keys = append(keys, k)
@@ -812,8 +828,11 @@ func main() {
 			}
 			want := strings.Count(strings.Join(t.segs, ""), "\r\n")
 			_ = want
-			if err != nil || len(rest) > 0 || obs.End.Hang != "" || tagged == 0 {
-				run.EngineError("transcript %s does not run clean: %q err=%v hang=%q", t.name, obs.Out, err, obs.End.Hang)
+			if fs := srvframe.Survival(obs.End, obs.NoSession); len(fs) > 0 {
+				continue // the exploration below reports it with the shortest input
+			}
+			if err != nil || len(rest) > 0 || tagged == 0 {
+				run.EngineError("transcript %s does not run clean: %q err=%v", t.name, obs.Out, err)
 			}
 		}
 		w.Close()
@@ -878,6 +897,9 @@ func main() {
 					if r.Tag == "a" && strings.HasPrefix(r.Text, "OK") {
 						ok = true
 					}
+				}
+				if fs := srvframe.Survival(obs.End, obs.NoSession); len(fs) > 0 && obs.EngineErr == "" {
+					continue // reported by the exploration below
 				}
 				if !ok || obs.EngineErr != "" {
 					run.EngineError("line %s is not a valid command on this server (caps %s): %q %s", l.name, srvframe.CapsName[caps], obs.Out, obs.EngineErr)
